@@ -12,11 +12,15 @@ def _ift():
 
 
 def _dt(case):
-    return {"i": np.int64, "f": np.float64, "c": np.complex128}[case.get("dtype", "f")]
+    return {"i": np.int64, "f": np.float64, "c": np.complex128, "F": np.float32, "C": np.complex64}[case.get("dtype", "f")]
 
 
 def _pick_dtype(rng, allowed="ifc"):
-    return rng.choice(list(allowed))
+    """single precision variants (small integers / dyadic weights are exact there too) are mixed in"""
+    d = rng.choice(list(allowed))
+    if d in "fc" and rng.random() < 0.2:
+        return d.upper()
+    return d
 
 
 def _sizes(doms):
@@ -886,7 +890,18 @@ class _MatProd(Base):
 
     def gen(self, rng, quick):
         cplx = rng.random() < 0.4
-        mode = rng.choice(["flat1d", "flatten", "spaces"])
+        mode = rng.choice(["flat1d", "flatten", "spaces", "anyspaces", "anyspaces"])
+        if mode == "anyspaces":
+            while True:
+                doms = U.gen_doms(rng, maxsize=36)
+                k = rng.randint(1, len(doms))
+                sp = rng.sample(range(len(doms)), k)          # any subset, any order (non-contiguous included)
+                n = int(np.prod([U.sub_size(doms[i]) for i in sp]))
+                if n <= 8 and not (len(doms) == 1 and len(doms[0]["shape"]) == 1):
+                    break
+            m = _rand_vals(rng, n * n, cplx)
+            return dict(cls=self.name, doms=doms, spaces=sp, flatten=False, blk=None, m=_vals_json(m),
+                        dtype="c" if cplx else _pick_dtype(rng, "fc"))
         if mode == "flat1d":
             doms = [U.sub_json(U.gen_sub(rng, maxdim=1))]
             doms[0] = U.sub_json(dict(kind="U", shape=[rng.randint(1, 5)]))
@@ -909,7 +924,7 @@ class _MatProd(Base):
 
     def build(self, case):
         doms = case["doms"]
-        blk = case["blk"]
+        blk = case["blk"] if case["blk"] is not None else case["spaces"]
         if case["flatten"] or case["spaces"] is None and len(doms) == 1 and len(doms[0]["shape"]) == 1:
             n = int(np.prod([U.sub_size(doms[i]) for i in blk]))
             mshape = (n, n)
@@ -924,6 +939,8 @@ class _MatProd(Base):
         doms = _model_doms(case)
         sizes = _sizes(doms)
         blk = case["blk"]
+        if blk is None:
+            return dict(cls="MatrixProductSpaces", sizes=sizes, spaces=case["spaces"], m=[U.cq(v) for v in _vals_np(case["m"])])
         pre = int(np.prod(sizes[:blk[0]], dtype=int))
         post = int(np.prod(sizes[blk[-1] + 1:], dtype=int))
         n = int(np.prod([sizes[i] for i in blk], dtype=int))
@@ -932,6 +949,14 @@ class _MatProd(Base):
     def ref(self, case, x):
         sizes = _sizes(case["doms"])
         blk = case["blk"]
+        if blk is None:
+            sp = case["spaces"]
+            n = int(np.prod([sizes[i] for i in sp], dtype=int))
+            m = _vals_np(case["m"]).reshape([sizes[i] for i in sp] * 2)
+            L = "abcdefg"[:len(sizes)]
+            out_l = "".join(L[i].upper() if i in sp else L[i] for i in range(len(sizes)))
+            msub = "".join(L[i].upper() for i in sp) + "".join(L[i] for i in sp)
+            return np.einsum(msub + "," + L + "->" + out_l, m, x.reshape(sizes)).reshape(-1)
         pre = int(np.prod(sizes[:blk[0]], dtype=int))
         post = int(np.prod(sizes[blk[-1] + 1:], dtype=int))
         n = int(np.prod([sizes[i] for i in blk], dtype=int))
